@@ -123,6 +123,7 @@ def run(ctx, rep):
     header_mirror_rule(f, rep)
     from . import c08
     c08.grant_rule(f, P, rep, 'C12.9')
+    new_mark_rule(f, P, rep, 'C12.11')
     rep.rule('C12.10', 'building the grown copy of a top table leaves the source table untouched (the source stays the live table when the growth fails)')
     source_untouched_rule(f, P, rep)
     rep.rule('C12.6', 'the fresh refblock of the growth path accounts for the refblock and every cluster of the relocated table')
@@ -315,3 +316,52 @@ def polled_between(b, create_bi, use_bi):
     from ..interp import POLL_NAMES
     polls = {bi for bi, t in b.calls() if t.get('fn') in POLL_NAMES and b.dominates(create_bi, bi)}
     return any(b.dominates(p, use_bi) for p in polls)
+
+
+def new_mark_rule(f, P, rep, rid):
+    """A freshly allocated metadata cluster holds stale bytes in the file.  The function that allocates it and then puts a
+    slice of it into a cache (add_rb_slice / add_l2_slice / add_cache_slice) must have marked the cluster as new before:
+    without the mark the insertion *loads* the slice from the file, over the entries just built in RAM (the refblock's own
+    refcount), and leaves it clean."""
+    rep.rule(rid, 'in a function that allocates a cluster and inserts a cache slice afterwards, a mark_new_cluster call that '
+                  'follows the allocation dominates the insertion')
+    # a cluster becomes a table cluster by an allocation or by an install into the top table at a computed position
+    ALLOC = ('::allocate_cluster', '::allocate_clusters', '::set_refblock_offset', '::map_l2_offset')
+    INSERT = ('::add_rb_slice', '::add_l2_slice', '::add_cache_slice')
+    n = 0
+    for b in f.body_list:
+        if '::tests::' in b.path or not b.path.startswith('dev::'):
+            continue
+        calls = list(b.calls())
+        allocs = [bi for bi, t in calls if (t.get('fn') or '').endswith(ALLOC)]
+        ins = [bi for bi, t in calls if (t.get('fn') or '').endswith(INSERT)]
+        marks = [bi for bi, t in calls if (t.get('fn') or '').endswith('::mark_new_cluster')]
+        if not allocs or not ins:
+            continue
+        succ = b.succ()
+
+        def reach(src):
+            seen, st = set(), list(succ[src])
+            while st:
+                x = st.pop()
+                if x not in seen:
+                    seen.add(x)
+                    st.extend(succ[x])
+            return seen
+        for abi in allocs:
+            ra = reach(abi)
+            for ibi in ins:
+                if ibi not in ra:
+                    continue
+                n += 1
+                good = [m for m in marks if m in ra and b.dominates(m, ibi)]
+                fn = short(b.path)
+                ok = bool(good)
+                rep.ob(rid, '%s: slice insertion at %s after the allocation at %s' % (fn, b.where(ibi), b.where(abi)), ok,
+                       'mark_new_cluster at %s dominates it' % b.where(good[0]) if ok else 'no mark_new_cluster between the allocation and the insertion')
+                if not ok:
+                    rep.violation(rid, '%s:%s' % (rid, fn), b.where(ibi),
+                                  '%s inserts a cache slice of the cluster it has just allocated (at %s) before the cluster is marked as new: '
+                                  'the insertion reads the slice from the file, replacing the entries built in RAM (the new refcount block '
+                                  'loses its own reference when the file already extends there) and leaving the slice clean' % (fn, b.where(abi)))
+    rep.floor('slice insertions after an allocation in the same function', n, 1)
